@@ -40,12 +40,14 @@ func compile(t Term, env *Env) (clauses, error) {
 		var cs clauses
 		head, body := t.Arg(0), t.Arg(1)
 		iter := altIterator{Alt: body, Env: env}
+		raw := env.simplify(t)
 		for iter.Next() {
 			c, err := compileClause(head, iter.Current(), env)
 			if err != nil {
 				return nil, typeError(validTypeCallable, body, env)
 			}
-			c.raw = env.simplify(t)
+			c.raw = raw
+			c.alt = len(cs) > 0
 			cs = append(cs, c)
 		}
 		return cs, nil
@@ -61,6 +63,10 @@ type clause struct {
 	raw      Term
 	vars     []Variable
 	bytecode bytecode
+
+	// alt is true if this is not the first alternative of a rule whose body is a disjunction.
+	// Such a rule is compiled into consecutive clauses which share raw. It's still one clause for clause/2 and retract/1.
+	alt bool
 }
 
 func compileClause(head Term, body Term, env *Env) (clause, error) {
